@@ -781,6 +781,22 @@ def fact_func_tables():
     return coq_pairs(items)
 
 
+def fact_anonymous_registers():
+    """Register constructions without a name: Qiskit numbers anonymous registers with a process-global counter, so
+    their NAMES depend on the history of the process (the harness interns such names like uuids)."""
+    items = []
+    for m in _info():
+        for qn, x in _walk_with_function(m):
+            if isinstance(x, ast.Call):
+                f = x.func
+                name = f.id if isinstance(f, ast.Name) else f.attr if isinstance(f, ast.Attribute) else None
+                if name in ("QuantumRegister", "ClassicalRegister", "AncillaRegister"):
+                    named = any(k.arg == "name" for k in x.keywords) or len(x.args) >= 2
+                    if not named:
+                        items.append((f"{m.mod}:{qn}", _txt(x)))
+    return coq_pairs(sorted(set(items)))
+
+
 _T = "list (string * string)"
 FACTS = [
     ("c09_module_globals", _T, fact_module_globals),
@@ -795,6 +811,7 @@ FACTS = [
     ("c09_rng_uses", _T, fact_rng_uses),
     ("c09_history_sources", _T, fact_history_sources),
     ("c09_memoisation_sites", _T, fact_memoisation_sites),
+    ("c09_anonymous_registers", _T, fact_anonymous_registers),
 ]
 
 if __name__ == "__main__":
